@@ -148,7 +148,7 @@ RE = "; SLICE: all real parts symbolic, all eps parts == 0"
 EPS = "; SLICE: real parts = one concrete table matrix (t1: row exchange, pivot 2, det -2; t3: no exchange, pivot -2, det 2), all eps parts symbolic"
 add("c12_linalg", "c12_lu_singular_n2", "C12",
     "LU::new(A) is Err <=> det(A.re) == 0 (all candidate pivots zero at some step); on Ok determinant().re != 0 and finite; 4 cover goals (both singular causes, both pivot paths)",
-    G12 + "; all 8 parts symbolic", "quick", flags=LIN)
+    G12 + "; all 8 parts symbolic", "thorough", flags=LIN)
 add("c12_linalg", "c12_lu_singular_col0_fulldomain_n2", "C12",
     "all f64 bit patterns: column 0 without an entry with |re| > 0 (zeros/NaN) => Err; Ok => some column-0 entry has |re| > 0",
     "n = 2; full f64 domain for all 8 parts; only the first elimination step's comparison logic is characterised", "quick",
@@ -163,19 +163,19 @@ for t in (1, 3):
         "determinant().eps == Jacobi's formula exactly (and re exact)", G12 + EPS, "quick", flags=LIN)
 add("c12_linalg", "c12_lu_solve_exact_n2_re", "C12",
     "x = solve(b) equals the exact solution adj(A) b / det(A) (<=> A x == b exactly), real parts; eps stays 0; both pivot paths covered",
-    G12 + P2 + RE + "; b.re in -2..=2", "quick", flags=LIN)
+    G12 + P2 + RE + "; b.re in -2..=2", "thorough", flags=LIN)
 for t in (1, 3):
     add("c12_linalg", f"c12_lu_solve_exact_n2_eps_t{t}", "C12",
         "x = solve(b) equals adj(A) b / det(A) exactly in re AND eps (dual quotient rule; <=> A x == b)",
         G12 + EPS + "; b.eps symbolic", "thorough", flags=LIN)
-for c in (0, 1):
-    add("c12_linalg", f"c12_lu_inverse_exact_n2_re_col{c}", "C12",
-        f"column {c} of inverse() == adj(A)/det(A) exactly (<=> A A^-1 == I), real parts; eps stays 0; both pivot paths covered",
-        G12 + P2 + RE, "thorough", flags=LIN)
-    for t in (1, 3):
-        add("c12_linalg", f"c12_lu_inverse_exact_n2_eps_t{t}_col{c}", "C12",
-            f"column {c} of inverse() == adj(A)/det(A) exactly in re AND eps (<=> A A^-1 == I with eps 0)",
-            G12 + EPS, "thorough", flags=LIN)
+# LU::inverse is not tractable in Kani (> 35 GB / 20 min per harness): native exhaustive tests
+NAT = "BOUNDED/TEST (native exhaustive enumeration, NOT a Kani proof): n = 2; all 5^8 matrices with re, eps integers in -2..=2"
+T.append(dict(name="c12_native_inverse_exhaustive_n2", module="c12_native", property="C12", kind="native",
+              what="for every grid matrix: singular real part <=> Err; determinant exact (re, eps); if |det(A.re)| in {1,2,4,8}: A*inverse() == I and inverse()*A == I exactly (re 1/0, eps 0); both pivot paths counted",
+              bound=NAT, tier="quick", expect_on_unchanged_tree="pass", measured_s=None, flags=LIN))
+T.append(dict(name="c12_native_solve_exhaustive_n2", module="c12_native", property="C12", kind="native",
+              what="for every grid matrix with |det(A.re)| in {1,2,4,8} and 100 right-hand sides (re in -2..=2, eps in {-1,2}): A * solve(b) == b exactly in re and eps (all parts varying together)",
+              bound=NAT, tier="quick", expect_on_unchanged_tree="pass", measured_s=None, flags=LIN))
 
 # ------------------------------------------------------------------ C13
 NANB = "fixed sizes; all bit patterns, NaN parts compared as 'NaN maps to NaN'"
